@@ -70,7 +70,7 @@ def run_tlc(module, cfg, workers=8, timeout=1800, env_extra=None, tag=None, simu
     cmd = ["java"] + opts + ["-cp", TLA_CP, "tlc2.TLC", "-workers", str(workers), "-metadir", meta,
                              "-cleanup", "-noGenerateSpecTE", "-config", cfg]
     if simulate:
-        cmd += ["-simulate", simulate]
+        cmd += ["-simulate", simulate, "-depth", "6", "-seed", str(seed())]
     cmd.append(module)
     env = dict(os.environ)
     env.pop("JAVA_TOOL_OPTIONS", None)
